@@ -403,9 +403,10 @@ def solo_row(h, t, flags):
         code = 0
         if op is not None and op[0] == "prop" and r[:1] == [2]:
             code = 2
-        if op is not None and op[0] == "report" and len(r) > 1:
-            code = r[1]
-        return "{| so_ev := %s; so_st := %s; so_r := %d |}" % (glist(st["ev"], gblk), glist(st["st"]), code)
+        still = 0
+        if op is not None and op[0] == "report" and len(r) > 2:
+            code, still = r[1], r[2]
+        return "{| so_ev := %s; so_st := %s; so_r := %d; so_still := %d |}" % (glist(st["ev"], gblk), glist(st["st"]), code, still)
     obs = [so(steps[0])] + [so(st, op) for op, st in zip(h["ops"], steps[1:])]
     return "(%s, %d, %s, %s)" % (gdef(flags), h["init"], glist(ops), glist(obs))
 
